@@ -39,3 +39,14 @@ MUTANTS += [
     dict(id="c18-station-255", props=["C18"], file="pdu.py", old="                        if local_addr >= 256:", new="                        if local_addr >= 255:"),
     dict(id="c18-host-mask", props=["C18"], file="pdu.py", old="                    self.addrHost = (self.addrIP & ~self.addrMask)\n                    self.addrSubnet = (self.addrIP & self.addrMask)\n                    bcast", new="                    self.addrHost = (self.addrIP & ~self.addrMask) & 0xFFFFFF\n                    self.addrSubnet = (self.addrIP & self.addrMask)\n                    bcast"),
 ]
+
+MUTANTS += [
+    # ---- C02
+    dict(id="c02-len-254-255-swap", props=["C02"], file="primitivedata.py", old="                if (self.tagLVT == 254):\n                    self.tagLVT = pdu.get_short()\n                elif (self.tagLVT == 255):", new="                if (self.tagLVT == 255):\n                    self.tagLVT = pdu.get_short()\n                elif (self.tagLVT == 254):"),
+    dict(id="c02-no-invalidtag-translation", props=["C02"], file="primitivedata.py", old="        except DecodingError:\n            raise InvalidTag(\"invalid tag encoding\")", new="        except DecodingError:\n            raise"),
+    dict(id="c02-get-context-lvl", props=["C02"], file="primitivedata.py", old="                if lvl >= 0:\n                    raise InvalidTag(\"mismatched open/close tags\")", new="                if lvl > 0:\n                    raise InvalidTag(\"mismatched open/close tags\")"),
+    dict(id="c02-class-mask", props=["C02"], file="primitivedata.py", old="self.tagClass = (tag >> 3) & 0x01", new="self.tagClass = (tag >> 3) & 0x03"),
+    dict(id="c02-get-data-off-by-one", props=["C02"], file="comm.py", old="        if len(self.pduData) < dlen:\n            raise DecodingError(\"no more packet data\")", new="        if len(self.pduData) < dlen - 1:\n            raise DecodingError(\"no more packet data\")"),
+    dict(id="c02-any-balance", props=["C02"], file="constructeddata.py", old="        # make sure everything balances\n        if lvl > 0:\n            raise DecodingError(\"mismatched open/close tags\")", new="        # make sure everything balances\n        if lvl > 1:\n            raise DecodingError(\"mismatched open/close tags\")"),
+    dict(id="c02-len-253", props=["C02", "C01"], file="primitivedata.py", old="            if (self.tagLVT <= 253):", new="            if (self.tagLVT < 253):"),
+]
